@@ -67,6 +67,9 @@ pub struct ClientProg {
     /// send the COPIA1 prologue first
     pub magic: bool,
     pub bye: bool,
+    /// pipelined client: send every request (with its content) before reading any reply
+    #[serde(default)]
+    pub pipeline: bool,
 }
 
 #[derive(Clone, Debug, Serialize, Deserialize)]
@@ -249,6 +252,8 @@ pub fn client_main(
         }
     }
     let mut failed = false;
+    let mut deferred: Vec<HOp> = Vec::new();
+    let mut send_failed = false;
     for (idx, req) in prog.reqs.iter().enumerate() {
         let resolve = |e: &Exp, path: &str, known: &BTreeMap<String, Option<Hash>>| -> Option<Hash> {
             match e {
@@ -320,10 +325,22 @@ pub fn client_main(
         let inv = now_seq();
         let mut op = HOp { client: me, idx, kind: kind.clone(), inv, resp: None, note: String::new() };
         let sent = out.send(&frame, &mut r).and_then(|()| out.send(&payload, &mut r));
+        if prog.pipeline && sent.is_ok() {
+            // reply is collected after everything has been sent
+            deferred.push(op);
+            continue;
+        }
         if let Err(e) = sent {
             op.note = format!("send failed: {e}");
-            push(op);
-            failed = true;
+            if prog.pipeline {
+                // the replies to what was sent before are still collected below; this request
+                // joins the queue so that the log keeps request order
+                send_failed = true;
+                deferred.push(op);
+            } else {
+                push(op);
+                failed = true;
+            }
             break;
         }
         if let OpKindH::Put { declared: Declared::ShortBodyThenClose, .. } = &kind {
@@ -404,6 +421,53 @@ pub fn client_main(
             break;
         }
     }
+    // pipelined client: now collect one reply per request sent, in order
+    let _ = send_failed;
+    for mut op in deferred {
+        if failed {
+            // the session ended at an earlier request: like a sequential client, which would never
+            // have sent these, they are not part of the history
+            break;
+        }
+        if op.note.starts_with("send failed") {
+            push(op);
+            failed = true;
+            break;
+        }
+        match read_frame::<_, Response>(&mut rd) {
+            Ok(Some(resp)) => {
+                let mut rep = conv(resp);
+                if let Reply::Content { len, body, .. } = &mut rep {
+                    let mut got = Vec::new();
+                    let mut left = *len;
+                    let mut buf = vec![0u8; 65536];
+                    while left > 0 {
+                        let want = (left as usize).min(buf.len());
+                        match rd.read(&mut buf[..want]) {
+                            Ok(0) | Err(_) => break,
+                            Ok(n) => {
+                                got.extend_from_slice(&buf[..n]);
+                                left -= n as u64;
+                            }
+                        }
+                    }
+                    *body = got;
+                }
+                op.resp = Some((now_seq(), rep));
+            }
+            Ok(None) => {
+                op.note = "EOF instead of reply".into();
+                log.lock().unwrap().eof_seen = true;
+                failed = true;
+            }
+            Err(e) => {
+                op.note = format!("reply stream error: {e}");
+                log.lock().unwrap().stream_error = Some(e.to_string());
+                failed = true;
+            }
+        }
+        push(op);
+    }
     // a client whose reply stream broke just goes away (like hub.rs erroring out)
     if prog.bye && !out.closed && !failed {
         let mut frame = Vec::new();
@@ -475,7 +539,7 @@ pub fn run_hub(sc: &HubSc, hook: Option<StepHook>) -> HubRun {
         let c2s = sim.pipe(None);
         // a raw byte injector does not read while it writes: give the reply direction room
         // so that the injector (not a hub property) cannot wedge the pair
-        let raw = cp.reqs.iter().any(|q| matches!(q, Req::Raw { .. }));
+        let raw = cp.pipeline || cp.reqs.iter().any(|q| matches!(q, Req::Raw { .. }));
         let s2c = sim.pipe(if raw { Some(1 << 30) } else { None });
         sim.spawn(TopSpawn {
             role: format!("serve{i}"),
